@@ -248,13 +248,14 @@ func (st *stream) recordBytesRead(n int) error {
 	if st.lim < 0 {
 		return nil
 	}
-	st.lim -= int64(n)
-	if st.lim < 0 {
-		st.stream = nil // panic if we try to read again
+	if int64(n) > st.lim {
+		// Leave the limit alone so that further reads keep failing.
+		// The stream must stay usable: the error paths still close it.
 		return &connectionError{
 			code:    errH3FrameError,
 			message: "invalid HTTP/3 frame",
 		}
 	}
+	st.lim -= int64(n)
 	return nil
 }
